@@ -11,7 +11,7 @@ claim('C18',
       'Bounded proof, inductive step: one soxr_output call of the real soxr.c from any API state with a nondeterministic input function (short supply, end, failure at any of <= 4 calls) over the abstract engine: request <= max_ilen, consume-once-in-order (ghost sequence numbers checked inside the engine), no call after end/failure/in error state, error string set.',
       'Trusted: cbmc; abstract engine contract; frames per call <= 3 (4 thorough); datatypes/layout/engine/channels enumerated per obligation.')
 
-for pid in ['C01', 'C02', 'C04', 'C05', 'C12', 'C14', 'C16',
+for pid in ['C01', 'C02', 'C12', 'C14', 'C16',
             'C17']:
     na(pid, 'check under construction in this session (breadth-first build order of DESIGN.md section 12); not yet claimed')
 
@@ -44,3 +44,10 @@ claim('C19',
 claim('C06',
       'Bounded proof: index exactness of all (de)interleavers for every bit pattern; per-channel routing of frames through one real soxr.c call (ghost sequence numbers carrying the channel) for all layout combinations; distinct engine object per channel.',
       'Partial: sequential semantics only - the OpenMP interleavings (shared clips/seed) are not decided by this check; engines are abstract (write footprint of real kernels: L3); channels <= 2.')
+
+claim('C04',
+      'Bounded proof per real stage kernel (one call from any clock value): exact advance of the virtual read position by step per output for the 32.32 clock, the 32.32+64 clock incl. carry, rational L/M stepping, half-band; loss-free re-normalisation; induction over calls gives no drift for streams of any length. Alignment of the first output frame: E4 impulse-response obligations for the configuration list.',
+      'Partial: the planner-side derivation of at/step/preload from io_ratio (cr.c:313-340, 428-474) is not symbolically executable (measured); alignment is decided per configuration of a stated list, not for all ratios. Trusted: cbmc; ENV(kind); step in [0.5,8); <= 4 samples per call.')
+claim('C05',
+      'Bounded proof: split lemma for every real stage kernel by self-composition (all clock values, all split points), FIFO/driver frame conservation (inductive step), and one real soxr.c push/pull call handing frames over once, in order, for any short supply.',
+      'Trusted: cbmc; data-independence argument (paper step) from equal positions to bit-identical samples; DFT-stage numerics stubbed; <= 2 samples per call in the split obligations of the poly-phase kernels.')
